@@ -294,6 +294,13 @@ UNSUPPORTED = [
     ("ret_none", True), ("assign", True), ("chain_is", True),
     # refused by the exporter although MathML could say it: allowed, not demanded
     ("mod", False), ("uadd", False), ("np.floor", False), ("np.exp", False), ("math_remainder", False),
+    # functions just outside the exporter's table: refused, or exported with the same meaning (decided by the
+    # round trip on real inputs) — log2 / exp / floor have a MathML counterpart, the others have none
+    ("near:np.log2", False), ("near:math.log2", False), ("near:numpy.log2", False), ("near:log2", False),
+    ("near:math.exp", False), ("near:math.floor", False), ("near:numpy.floor", False),
+    ("near:np.log1p", True), ("near:np.expm1", True), ("near:np.exp2", True), ("near:np.cbrt", True),
+    ("near:np.square", True), ("near:np.sign", True), ("near:np.trunc", True), ("near:np.fabs", True),
+    ("near:np.absolute", True), ("near:np.reciprocal", True), ("near:math.log1p", True), ("near:math.expm1", True),
 ]
 
 
@@ -338,6 +345,11 @@ def unsupported_expr(rng, kind, g: G):
         return ["call", ["lib", "scipy", "sqrt"], [x]]
     if kind == "mod":
         return ["binop", "Mod", x, g.posden(0)]
+    if kind.startswith("near:"):
+        fq = kind[5:]
+        callee = ["lib", *fq.split(".")] if "." in fq else ["direct", fq]
+        arg = ["binop", "Add", ["call", ["direct", "abs"], [x]], ["num", rng.choice(["1", "2", "1/2"])]]
+        return ["binop", "Add", ["call", callee, [arg]], y]
     if kind == "math_remainder":
         return ["call", ["lib", "math", "remainder"], [x, g.posden(0)]]
     if kind == "uadd":
@@ -356,7 +368,7 @@ COEFS = ["-2", "-1", "1", "2", "-1/2", "5/2", "3/2", "-3", "1/4"]
 
 def mk_fn(rng, name, args, *, boolean=False, floaty=False, depth=2, expr=None, body=None):
     """a function description: distinct parameter names, every argument used"""
-    style = rng.choice(["p", "same", "letters"])
+    style = rng.choice(mk_fn.styles)
     if style == "p" or any(not a.isidentifier() or a in ("lambda",) for a in args):
         params = [f"p{i}" for i in range(len(args))]
     elif style == "same":
@@ -375,6 +387,9 @@ def mk_fn(rng, name, args, *, boolean=False, floaty=False, depth=2, expr=None, b
         body = [["ret", expr]]
     return {"fname": name, "params": params, "args": list(args), "body": body, "doc": rng.random() < 0.2,
             "floaty": g.used_float or floaty and _has_float(body)}, g
+
+
+mk_fn.styles = ["p", "same", "letters"]
 
 
 def _names(e):
@@ -404,8 +419,9 @@ def _has_float(body) -> bool:
 
 
 def gen_model(rng, *, stratum: str):
-    """stratum: exact | float | names | unsupported:<kind> | refclash | boolnum | gennames | samepath"""
+    """stratum: exact | float | names | unsupported:<kind> | refclash | boolnum | gennames | samepath | sharedfn"""
     floaty = stratum == "float"
+    mk_fn.styles = ["p", "letters"] if stratum == "sharedfn" else ["p", "same", "letters"]
     nv, npar = rng.choice([1, 2, 2, 3]), rng.choice([1, 2, 3])
     nd, nr = rng.choice([0, 1, 2]), rng.choice([1, 2, 3])
     vs = rng.sample(PLAIN_VARS, nv)
@@ -472,6 +488,24 @@ def gen_model(rng, *, stratum: str):
                 cf["params"] = ["p0"]
             stoich.append([clash_species, ["fn", cf]])
         model["rxns"].append({"name": r, "fn": f, "stoich": stoich})
+    if stratum == "sharedfn":
+        # one Python function object used by several components with different model arguments (as with a library
+        # of rate laws): the formal parameters differ from the model names, so every use needs its own renaming
+        donors = [r["fn"] for r in model["rxns"]] + [f for _, f in model["derived"]]
+        for _ in range(rng.choice([1, 2, 3])):
+            f = rng.choice(donors)
+            if f["params"] == f["args"]:
+                continue
+            pool_ = [a for a in avail]
+            if len(pool_) < len(f["args"]):
+                continue
+            args2 = rng.sample(pool_, len(f["args"]))
+            twin = dict(f, args=args2)
+            if rng.random() < 0.6:
+                model["rxns"].append({"name": f"sh{len(model['rxns'])}", "fn": twin,
+                                      "stoich": [[rng.choice(vs), ["num", rng.choice(COEFS)]]]})
+            else:
+                model["derived"].append([f"shd{len(model['derived'])}", twin])
     if stratum == "gennames":
         # components called like the helper functions the importer generates: <reaction>_stoich_<species> for a
         # reaction declared before or after it, init_<name> for a name that has an initial assignment
@@ -574,8 +608,13 @@ def all_fns(model):
 
 def module_source(model) -> str:
     head = ("import math\nimport numpy\nimport numpy as np\nimport scipy\n"
-            "from numpy import sqrt, ceil, log, log10, sin, cos, tan\n\n\ndef helper(z):\n    return z\n\n\n")
-    return head + "\n\n".join(fn_source(f) for f in all_fns(model))
+            "from numpy import sqrt, ceil, log, log10, log2, sin, cos, tan\n\n\ndef helper(z):\n    return z\n\n\n")
+    seen, parts = set(), []
+    for f in all_fns(model):
+        if f["fname"] not in seen:  # a function shared by several components is defined once
+            seen.add(f["fname"])
+            parts.append(fn_source(f))
+    return head + "\n\n".join(parts)
 
 
 def fn_wire(f, source_fn_def: ast.FunctionDef | None = None):
@@ -1167,8 +1206,8 @@ def setup(ctx):
 def strata(ctx):
     n = ctx.n(1, 40)
     plan = [("exact", 140 * n), ("float", 90 * n), ("names", 33 * n), ("refclash", 8 * n), ("boolnum", 9 * n),
-            ("gennames", 24 * n), ("samepath", 16 * n)]
-    plan += [(f"unsupported:{k}", 3 * n) for k, _ in UNSUPPORTED]
+            ("gennames", 24 * n), ("samepath", 16 * n), ("sharedfn", 30 * n)]
+    plan += [(f"unsupported:{k}", (2 if k.startswith("near:") else 3) * n) for k, _ in UNSUPPORTED]
     return plan
 
 
